@@ -98,13 +98,16 @@ impl<'a> CrlCase<'a> {
 	pub fn text(&self) -> String {
 		format!("issuer_key={} issuer_name={:?} spec={:?}", self.key.label, self.issuer_name, self.spec)
 	}
-	pub fn issuer_cert(&self) -> Certificate {
+	pub fn issuer_cert(&self) -> Result<Certificate, String> {
 		let mut s = ParamSpec::minimal();
 		s.subject = self.issuer_name.clone();
 		s.is_ca = IsCaSpec::Ca(None);
 		s.ku = self.spec.issuer_ku;
 		s.kid = self.issuer_kid.clone();
-		s.to_rcgen(None).self_signed(&self.key.kp).expect("CRL issuer certificate")
+		match crate::guard(|| s.to_rcgen(None).self_signed(&self.key.kp).map_err(|e| e.to_string())) {
+			Ok(r) => r,
+			Err(p) => Err(format!("PANIC: {}", p)),
+		}
 	}
 }
 
@@ -115,7 +118,10 @@ pub enum Outcome {
 }
 
 pub fn build(case: &CrlCase<'_>) -> Outcome {
-	let issuer = case.issuer_cert();
+	let issuer = match case.issuer_cert() {
+		Ok(i) => i,
+		Err(e) => return Outcome::Err(e),
+	};
 	let params = case.spec.to_rcgen();
 	match crate::guard(|| params.signed_by(&issuer, &case.key.kp)) {
 		Err(p) => Outcome::Panic(p),
@@ -139,7 +145,10 @@ pub fn check_c08(ctx: &Ctx, case: &CrlCase<'_>, crl: &CertificateRevocationList,
 	};
 	let s = &case.spec;
 	let mut bad = |what: &str, d: String| ctx.violation(&format!("c08:{}", what), &case.id, &txt(), &d);
-	let iv = x509::parse_certificate(issuer.der()).expect("issuer decodes");
+	let iv = match x509::parse_certificate(issuer.der()) {
+		Ok(v) => v,
+		Err(e) => return ctx.violation("c08:issuer-undecodable", &case.id, &txt(), &e),
+	};
 	if v.issuer.raw != iv.subject.raw {
 		bad("issuer-name", format!("CRL issuer {} issuer certificate subject {}", hex(&v.issuer.raw), hex(&iv.subject.raw)));
 	}
@@ -625,7 +634,18 @@ pub fn run(ctx: &Ctx, prop: Prop, pool: &[PoolKey], n_random: u64) {
 			let _g = if case.key.is_remote() { Some(serial.lock().unwrap()) } else { None };
 			// the issuer certificate is signed by the same key: count sign calls after it exists
 			let out = {
-				let issuer = case.issuer_cert();
+				let issuer = match case.issuer_cert() {
+					Ok(i) => i,
+					Err(e) => {
+						ctx.violation(
+							&format!("{}:crl-issuer-setup", prop_tag(prop)),
+							&case.id,
+							&case.text(),
+							&format!("generating the issuer certificate from well-formed parameters failed: {}", e),
+						);
+						return;
+					},
+				};
 				let log_before = case.key.remote_log.as_ref().map_or(0, |l| l.lock().unwrap().msgs.len());
 				let params = case.spec.to_rcgen();
 				let o = match crate::guard(|| params.signed_by(&issuer, &case.key.kp)) {
